@@ -52,17 +52,36 @@ func SetYield(permille int) { atomic.StoreInt32(&yieldP, int32(permille)) }
 func Observe(prefix string, fn func(point string, ids []string)) func() {
 	obsMu.Lock()
 	observe[prefix] = fn
-	atomic.StoreInt32(&nobs, int32(len(observe)))
+	atomic.AddInt32(&nobs, 1)
 	obsMu.Unlock()
 	return func() {
 		obsMu.Lock()
 		delete(observe, prefix)
-		atomic.StoreInt32(&nobs, int32(len(observe)))
+		atomic.AddInt32(&nobs, -1)
 		obsMu.Unlock()
 	}
 }
 
 var nobs int32
+
+var (
+	obsIDMu   sync.RWMutex
+	observeID = map[string]func(point string, ids []string){}
+)
+
+// ObserveID registers fn for hook calls whose first id equals id exactly (e.g. verifhook.Ptr of an object).
+func ObserveID(id string, fn func(point string, ids []string)) func() {
+	obsIDMu.Lock()
+	observeID[id] = fn
+	atomic.AddInt32(&nobs, 1)
+	obsIDMu.Unlock()
+	return func() {
+		obsIDMu.Lock()
+		delete(observeID, id)
+		atomic.AddInt32(&nobs, -1)
+		obsIDMu.Unlock()
+	}
+}
 
 func runPrefix(id string) string {
 	// ids look like "r<run>-..." ; the prefix is everything up to and including the first '-'
@@ -78,6 +97,14 @@ func handle(point string, ids ...string) {
 	c, _ := counts.LoadOrStore(point, new(int64))
 	atomic.AddInt64(c.(*int64), 1)
 	if atomic.LoadInt32(&nobs) > 0 {
+		if len(ids) > 0 {
+			obsIDMu.RLock()
+			fn := observeID[ids[0]]
+			obsIDMu.RUnlock()
+			if fn != nil {
+				fn(point, ids)
+			}
+		}
 		for _, x := range ids {
 			if p := runPrefix(x); p != "" {
 				obsMu.RLock()
